@@ -19,6 +19,9 @@ RULE = (
     "frozen trees must refuse every mutator and keep their node fingerprints. Exhaustive: every insertion order of 6 (quick) / 8 "
     "(thorough) keys at t=3 followed by deletions. Distinct by (t, in_order, op, outcome, depth, number of live trees)."
 )
+RULE += " " + (
+    "Also: released generations with address reuse; element-level mutators on frozen trees; one cursor rewound with seek_first / seek_last and walked across a multi-level tree."
+)
 ASSUMPTIONS = [
     "sorted-dict and cursor cut-point models in this file (DESIGN.md Appendix B5)",
     "structural walk reads BTree.root / node.elts / node.children as an optional witness; the deciding oracle is the model at the public API",
